@@ -34,6 +34,8 @@ func runC12(c *core.Ctx) {
 	c.Rule("C12.first", "A1: joinset.Set lowers `first` exactly when the parent index is smaller than the current first (First() is the lowest-index parent present, independent of arrival order), stores the value under its parent index and counts it; newJoinset starts first at len(prefixes)")
 	c.Rule("C12.place", "A2: joinGroup.Collect puts the message into the first existing set of its rounded time that does not have this parent yet (break at the first free set), else into a new set enqueued behind; it is stored under the message's own parent index")
 	c.Rule("C12.prefix", "A1/A3: JoinIntoPoint: every field key is prefixes[i]+delimiter+k with i the index of the value it came from; a missing parent yields nil keys (null fill), fillValue keys (number fill) or no output (inner); the output carries js.name, js.time and the first value's dimensions and group tags")
+	c.Rule("C12.passed", "A1: joinGroup.checkOnlyReadSets allows incomplete sets to be emitted (returns false) only on paths where every parent head examined is strictly After the oldest buffered time: a head equal to it may still be followed by a message of the same rounded time")
+	c.Rule("C12.queue", "A3: CircularQueue (the buffer behind union sources and join sets) keeps FIFO order when it grows: unwrapped, the live segment data[head:tail] is copied to the front; wrapped, data[head:] is copied first and data[:tail] directly behind it; head becomes 0, tail the old capacity, the new element goes to that tail; Peek(i) reads (head+i) wrapped by len(data)")
 	c.Rule("C12.roles", "A7: joinGroup.newJoinset passes (node, StreamName, fill, fillValue, Names, Delimiter, Tolerance, t, diag) to newJoinset's parameters of the same roles, and newJoinset stores each parameter in the field of its role")
 
 	root := c.P.Pkg("")
@@ -46,6 +48,8 @@ func runC12(c *core.Ctx) {
 	c12Buffer(c, edge)
 	c12Union(c, root)
 	c12Join(c, root)
+	c12Passed(c, root)
+	c12Queue(c, root)
 }
 
 func c12Consumer(c *core.Ctx, edge *packages.Package) {
@@ -574,6 +578,200 @@ func c12Join(c *core.Ctx, root *packages.Package) {
 		c.Floor("C12.prefix", "joined field stores on paths", nStores, 3)
 		if good {
 			c.Ok("C12.prefix", "joinset.JoinIntoPoint")
+		}
+	}
+}
+
+func c12Passed(c *core.Ctx, pkg *packages.Package) {
+	fn := c.Need("C12.passed", "", "joinGroup", "checkOnlyReadSets")
+	if fn == nil {
+		return
+	}
+	info := pkg.TypesInfo
+	eng := &an.Engine{Prog: c.P, ElemKeys: true, BoolReturns: true,
+		TrackStore: func(lhs ast.Expr, key string) string {
+			if id, ok := ast.Unparen(lhs).(*ast.Ident); ok {
+				if v, ok := info.Uses[id].(*types.Var); ok && types.Identical(v.Type(), types.Typ[types.Bool]) {
+					return "hold"
+				}
+			}
+			return ""
+		},
+		Classify: func(a an.Atom) (string, bool) {
+			if strings.HasSuffix(a.Key, ".After(g.oldestTime)") && (strings.Contains(a.Key, ".head[*]") || strings.Contains(a.Key, "~")) {
+				return "after", false
+			}
+			return "", false
+		}}
+	paths, err := eng.Run(fn)
+	if err != nil {
+		c.Undecided("C12.passed", "joinGroup.checkOnlyReadSets", fn.Decl.Pos(), "%v", err)
+		return
+	}
+	good, seen := len(paths) > 0, false
+	for _, p := range paths {
+		if len(p.Rets) != 1 || p.Rets[0] != "false" {
+			continue
+		}
+		entered := false
+		for _, e := range p.Events {
+			if e.Kind == "loop" {
+				entered = true
+			}
+		}
+		if !entered {
+			continue
+		}
+		seen = true
+		if v, dec := p.Assign()["after"]; !dec || !v {
+			good = false
+			c.Fail("C12.passed", "joinGroup.checkOnlyReadSets#strict", p.RetPos, "incomplete join sets are released on a path where a parent head is not established to be strictly after the oldest buffered time (%s): a parent that delivers a second message with the same rounded timestamp finds its set already emitted, matched pairs are dropped or come out half-filled", p.Cond())
+		}
+	}
+	if good && seen {
+		c.Ok("C12.passed", "joinGroup.checkOnlyReadSets")
+	} else if !seen {
+		c.Fail("C12.passed", "joinGroup.checkOnlyReadSets", fn.Decl.Pos(), "no path releases incomplete sets after looking at the heads")
+	}
+}
+
+func c12Queue(c *core.Ctx, pkg *packages.Package) {
+	info := pkg.TypesInfo
+	if fn := c.Need("C12.queue", "", "CircularQueue", "Enqueue"); fn != nil {
+		eng := &an.Engine{Prog: c.P,
+			TrackCall: func(call *ast.CallExpr, callee *types.Func) string {
+				if core.IsBuiltin(info, call, "copy") {
+					return "copy"
+				}
+				return ""
+			},
+			TrackStore: func(lhs ast.Expr, key string) string {
+				for _, f := range []string{"head", "tail", "data"} {
+					if an.FieldSel(info, lhs, "CircularQueue", f) {
+						return f
+					}
+				}
+				if ix, ok := ast.Unparen(lhs).(*ast.IndexExpr); ok {
+					if id, ok := ix.X.(*ast.Ident); ok && id.Name != "" {
+						if _, isVar := info.Uses[id].(*types.Var); isVar && !an.FieldSel(info, ix.X, "CircularQueue", "data") {
+							return "put"
+						}
+					}
+				}
+				return ""
+			},
+			Classify: func(a an.Atom) (string, bool) {
+				switch a.Key {
+				case "q.Len < cap(q.data)":
+					return "room", false
+				case "q.head < q.tail":
+					return "flat", false
+				}
+				return "", false
+			}}
+		paths, err := eng.Run(fn)
+		if err != nil {
+			c.Undecided("C12.queue", "CircularQueue.Enqueue", fn.Decl.Pos(), "%v", err)
+		} else {
+			good, grows := len(paths) > 0, 0
+			for _, p := range paths {
+				a := p.Assign()
+				if v, dec := a["room"]; !dec || v {
+					continue
+				}
+				grows++
+				var copies []an.Event
+				for _, e := range p.Events {
+					if e.Kind == "call" && e.Name == "copy" {
+						copies = append(copies, e)
+					}
+				}
+				flat, dec := a["flat"]
+				switch {
+				case !dec:
+					good = false
+					c.Fail("C12.queue", "CircularQueue.Enqueue#grow", p.RetPos, "the grow path does not distinguish a wrapped ring (head >= tail) from a flat one")
+				case flat:
+					if len(copies) != 1 || !strings.HasPrefix(copies[0].Args[0], "make(") || copies[0].Args[1] != "q.data[q.head:q.tail]" {
+						good = false
+						c.Fail("C12.queue", "CircularQueue.Enqueue#grow-flat", p.RetPos, "growing a flat ring must copy data[head:tail] to the front of the new buffer")
+					}
+				default:
+					okk := len(copies) == 2 && strings.HasPrefix(copies[0].Args[0], "make(") && copies[0].Args[1] == "q.data[q.head:]" &&
+						copies[1].Args[1] == "q.data[:q.tail]" && strings.HasPrefix(copies[1].Args[0], "make(") && strings.Contains(copies[1].Args[0], "[copy(") && strings.HasSuffix(copies[1].Args[0], ":]")
+					if !okk {
+						good = false
+						got := ""
+						for _, cp := range copies {
+							got += "copy(" + shortKey(cp.Args[0]) + ", " + shortKey(cp.Args[1]) + ") "
+						}
+						c.Fail("C12.queue", "CircularQueue.Enqueue#grow-wrapped", p.RetPos, "growing a wrapped ring must copy the older segment data[head:] to the front and the newer segment data[:tail] directly behind it; it does %s— the queue comes out in another order than it went in, a parent's buffered messages are reordered", got)
+					}
+				}
+				// head=0, tail=cap(old), element at new tail, data=buf
+				var seq []string
+				for _, e := range p.Events {
+					if e.Kind == "store" {
+						switch e.Name {
+						case "head", "tail":
+							seq = append(seq, e.Name+"="+e.Args[0])
+						case "data":
+							if strings.HasPrefix(e.Args[0], "make(") {
+								seq = append(seq, "data=buf")
+							} else {
+								seq = append(seq, "data=?")
+							}
+						case "put":
+							seq = append(seq, "put")
+						}
+					}
+				}
+				w := strings.Join(seq, ",")
+				if !strings.HasPrefix(w, "head=0,tail=cap(q.data),put,data=buf,tail=") {
+					good = false
+					c.Fail("C12.queue", "CircularQueue.Enqueue#grow-indices", p.RetPos, "after growing head must be 0, tail the old capacity, the new element stored at that tail and the buffer swapped in; path does [%s]", w)
+				}
+			}
+			c.Floor("C12.queue", "grow paths of Enqueue", grows, 2)
+			if good {
+				c.Ok("C12.queue", "CircularQueue.Enqueue")
+			}
+		}
+	}
+	if fn := c.Need("C12.queue", "", "CircularQueue", "Peek"); fn != nil {
+		eng := &an.Engine{Prog: c.P,
+			Classify: func(a an.Atom) (string, bool) {
+				if strings.HasSuffix(a.Key, "< len(q.data)") && strings.Contains(a.Key, "q.head + ") {
+					return "inrange", false
+				}
+				return "", false
+			}}
+		paths, err := eng.Run(fn)
+		if err != nil {
+			c.Undecided("C12.queue", "CircularQueue.Peek", fn.Decl.Pos(), "%v", err)
+			return
+		}
+		good, n := len(paths) > 0, 0
+		i := an.ParamName(fn.Decl.Type, 0)
+		for _, p := range paths {
+			if len(p.Rets) != 1 || p.Exit != "return" {
+				continue
+			}
+			n++
+			v, dec := p.Assign()["inrange"]
+			want := "q.data[(q.head + " + i + ")]"
+			if dec && !v {
+				want = "q.data[((q.head + " + i + ") - len(q.data))]"
+			}
+			if !dec || p.Rets[0] != want {
+				good = false
+				c.Fail("C12.queue", "CircularQueue.Peek", p.RetPos, "Peek(%s) must read data[head+%s], wrapped by len(data) when that is past the end; path returns %s (expected %s)", i, i, p.Rets[0], want)
+			}
+		}
+		if good && n >= 2 {
+			c.Ok("C12.queue", "CircularQueue.Peek")
+		} else if good {
+			c.Fail("C12.queue", "CircularQueue.Peek", fn.Decl.Pos(), "Peek has no wrapped and unwrapped return path")
 		}
 	}
 }
